@@ -24,6 +24,7 @@ func init() {
 }
 
 func runC18(c *eng.Ctx, thorough bool) {
+	c18Namespace(c)
 	// ---- C18.4 the single use is consumed by the locked read-modify-write of C19.1
 	useTokenAtomic(c, "C18.4")
 	// ---- C18.1 the wrapping token literal
@@ -450,4 +451,49 @@ func sliceLitElems(v ssa.Value) []string {
 		}
 	}
 	return out
+}
+
+// c18Namespace (C18.3): consuming the use count, reading the payload and
+// revoking the wrapping token all happen in the WRAPPING TOKEN's namespace.
+// UseTokenByID finds the namespace from the id, but revokeOrphan salts the id
+// with the context's namespace: run in the caller's namespace it silently does
+// nothing and the token and its payload survive the unwrap (seed C18-b).
+func c18Namespace(c *eng.Ctx) {
+	if f := c.Fn("vault.(*SystemBackend).handleWrappingUnwrap"); f != nil {
+		c.Clause("R5", "C18.3")
+		calls := eng.Calls(f, `^vault\.\(\*SystemBackend\)\.responseWrappingUnwrap$`)
+		if c.Floor(f, "responseWrappingUnwrap call", len(calls), 1) {
+			for _, cl := range calls {
+				ctxArg := cl.Common().Args[1]
+				ok := c.Prov(f, "unwrap runs in the wrapping token's namespace", cl, ctxArg, `^call:namespace\.ContextWithNamespace$`)
+				if ok {
+					for _, o := range eng.Origins(ctxArg) {
+						if cw, isCall := o.Val.(*ssa.Call); isCall {
+							c.Prov(f, "namespace the unwrap context is switched to", cw, cw.Call.Args[1], `^call:vault\.\(\*Core\)\.NamespaceByID#0$`)
+						}
+					}
+				}
+			}
+			for _, nb := range eng.Calls(f, `^vault\.\(\*Core\)\.NamespaceByID$`) {
+				a := nb.Common().Args
+				s := eng.Expr(a[len(a)-1])
+				if strings.HasSuffix(s, ".NamespaceID") && strings.Contains(s, "lookupTainted()#0") {
+					c.OK(f, "namespace looked up = the wrapping token's", nb.Pos(), s)
+				} else {
+					c.Violation(f, "namespace looked up = the wrapping token's", nb.Pos(), "NamespaceByID("+s+")", nil)
+				}
+			}
+		}
+	}
+	if f := c.Fn("vault.(*SystemBackend).responseWrappingUnwrap"); f != nil {
+		c.Clause("R5", "C18.3")
+		n := 0
+		for _, pat := range []string{`^vault\.\(\*TokenStore\)\.UseTokenByID$`, `^vault\.\(\*TokenStore\)\.revokeOrphan$`, `^routing\.\(\*Router\)\.Route$`} {
+			for _, cl := range eng.Calls(f, pat) {
+				n++
+				c.Prov(f, "context of "+eng.CalleeName(cl.Common())+" = the unwrap context", cl, cl.Common().Args[1], `^param:ctx$`)
+			}
+		}
+		c.Floor(f, "namespace-sensitive steps of the unwrap", n, 3)
+	}
 }
